@@ -22,7 +22,10 @@ def sh(cmd, cwd=None, t=1800):
 def seeds(filters):
     out = []
     for d in sorted(os.listdir(SEEDED)):
-        if os.path.exists(os.path.join(SEEDED, d, "meta.json")) and (not filters or any(f in d for f in filters)):
+        mp = os.path.join(SEEDED, d, "meta.json")
+        if os.path.exists(mp) and (not filters or any(f in d for f in filters)):
+            if json.load(open(mp)).get("obsolete") and not filters:
+                continue          # neutralised by a later repair of /repo (see meta.json)
             out.append(d)
     return out
 
